@@ -53,6 +53,52 @@ theorem src_writeTail_expected : src_writeTail = "if (*si).Type == influxql.RANG
 
 theorem src_writeShardKey_expected : src_writeShardKey = "if !reuseShardKey { if stream { err = r.UnmarshalShardKeyByDimOrTag((*si).ShardKey, dims) } else if engineType == config.COLUMNSTORE { err = r.UnmarshalShardKeyByField((*si).ShardKey) } else { if r.ReadyBuildColumnToIndex { err = r.UnmarshalShardKeyByTagOp((*si).ShardKey) } else { err = r.UnmarshalShardKeyByTag((*si).ShardKey) } } if err != nil { if err != influx.ErrPointShouldHaveAllShardKey { return } partialErr = err err = nil return } if len(r.ShardKey) > MaxShardKey { partialErr = errno.NewError(errno.WritePointShardKeyTooLarge) w.logger.Error(\"write failed\", zap.Error(partialErr)) return } }" := by rfl
 
+/-! ### the batch loop (OG.C11.Batch): order of the steps and the cached state
+
+`routeLoopCalls` lists the calls on `wh` / `w` / `ctx` in the row loop of `routeAndMapOriginRows`
+in source order: `sameMeasurement` has to compare with the PREVIOUS row's measurement, so it comes
+before `createMeasurement` replaces `preMst`; the schema check (which may drop the row) sits between
+`createMeasurement` and `updateShardGroupAndShardKey`. `updateSGCalls` is the same for
+`updateShardGroupAndShardKey`: the alive list is fetched right after `createShardGroup`, before the
+shard-key stage. `skRefreshGuard` is translated and used by the model's step function. -/
+
+theorem routeLoopCalls_expected : routeLoopCalls = ["w.inTimeRange", "wh.sameMeasurement", "wh.createMeasurement", "wh.updatePrimaryKeyMapIfNeeded", "wh.updateSchemaIfNeeded", "w.isPartialErr", "ctx.getDstSis", "ctx.getDstSis", "ctx.getDstSis", "w.MetaClient.UpdateSchema", "w.updateShardGroupAndShardKey", "wh.updateSchemaIfNeeded", "w.isPartialErr", "ctx.getDstSis", "w.MapRowToMeasurement", "ctx.setShardRow"] := by decide
+
+theorem updateSGCalls_expected : updateSGCalls = ["ctx.getStreamDBs", "ctx.getStreamMSTs", "ctx.getStreamShardKeyInfos", "ctx.getWriteHelpers", "ctx.getStreamAliveShardIdxes", "wh.createShardGroup", "w.MetaClient.GetAliveShards", "r.UnmarshalShardKeyByDimOrTag", "r.UnmarshalShardKeyByField", "r.UnmarshalShardKeyByTagOp", "r.UnmarshalShardKeyByTag", "sg.DestShard", "w.MetaClient.Measurement", "r.SkipMarshalShardKey", "sg.ShardFor"] := by decide
+
+/-- `wh.sameMeasurement` runs before `wh.createMeasurement`, and both before the routing. -/
+theorem sameMeasurement_before_createMeasurement_expected :
+    routeLoopCalls.idxOf "wh.sameMeasurement" < routeLoopCalls.idxOf "wh.createMeasurement" ∧
+    routeLoopCalls.idxOf "wh.createMeasurement" < routeLoopCalls.idxOf "w.updateShardGroupAndShardKey" ∧
+    routeLoopCalls.count "wh.sameMeasurement" = 1 ∧ routeLoopCalls.count "wh.createMeasurement" = 1 := by decide
+
+/-- the alive list is refreshed between `createShardGroup` and the shard-key stage. -/
+theorem aliveRefresh_before_shardKey_expected :
+    updateSGCalls.idxOf "wh.createShardGroup" < updateSGCalls.idxOf "w.MetaClient.GetAliveShards" ∧
+    updateSGCalls.idxOf "w.MetaClient.GetAliveShards" < updateSGCalls.idxOf "r.UnmarshalShardKeyByTag" ∧
+    updateSGCalls.count "w.MetaClient.GetAliveShards" = 1 := by decide
+
+/-- the ShardKeyInfo is re-resolved when the group or the measurement changed. -/
+theorem skRefreshGuard_expected : ∀ sameSg sameMst, skRefreshGuard sameSg sameMst = (!sameSg || !sameMst) := by decide
+
+theorem maxShardKey_expected : maxShardKey = 65536 := by decide
+
+theorem src_updateShardGroupAndShardKey_expected : src_updateShardGroupAndShardKey = "{ var wh *writeHelper var di *meta2.DatabaseInfo var si **meta2.ShardKeyInfo var mi *meta2.MeasurementInfo var asis *[]int if stream { di = (*ctx.getStreamDBs())[index] mi = (*ctx.getStreamMSTs())[index] si = &ctx.getStreamShardKeyInfos()[index] wh = (*ctx.getWriteHelpers())[index] asis = &(*ctx.getStreamAliveShardIdxes())[index] } else { di = ctx.db mi = ctx.ms si = &ctx.shardKeyInfo wh = ctx.writeHelper asis = &ctx.aliveShardIdxes } var sameSg bool var sg *meta2.ShardGroupInfo engineType := mi.EngineType sg, sameSg, err = wh.createShardGroup(database, retentionPolicy, time.Unix(0, r.Timestamp), engineType) if err != nil { return } if len(*asis) == 0 { sameSg = false } if !sameSg { *asis = w.MetaClient.GetAliveShards(database, sg, false) } if !sameSg || !wh.sameMst { if len(di.ShardKey.ShardKey) > 0 { *si = &di.ShardKey } else { *si = mi.GetShardKey(sg.ID) } if *si == nil { err = errno.NewError(errno.WriteNoShardKey) return } } if !reuseShardKey { if stream { err = r.UnmarshalShardKeyByDimOrTag((*si).ShardKey, dims) } else if engineType == config.COLUMNSTORE { err = r.UnmarshalShardKeyByField((*si).ShardKey) } else { if r.ReadyBuildColumnToIndex { err = r.UnmarshalShardKeyByTagOp((*si).ShardKey) } else { err = r.UnmarshalShardKeyByTag((*si).ShardKey) } } if err != nil { if err != influx.ErrPointShouldHaveAllShardKey { return } partialErr = err err = nil return } if len(r.ShardKey) > MaxShardKey { partialErr = errno.NewError(errno.WritePointShardKeyTooLarge) w.logger.Error(\"write failed\", zap.Error(partialErr)) return } } if (*si).Type == influxql.RANGE { sh = sg.DestShard(bytesutil.ToUnsafeString(r.ShardKey)) } else { if len((*si).ShardKey) > 0 && !reuseShardKey { r.ShardKey = r.ShardKey[len(r.Name)+1:] } var shardIdxes []int if mi.InitNumOfShards == 0 { shardIdxes = *asis } else { shardIdxes = mi.ShardIdexes[sg.ID] if len(shardIdxes) == 0 { mi, err = w.MetaClient.Measurement(database, retentionPolicy, mi.OriginName()) if err != nil { w.logger.Error(\"write failed\", zap.Error(err)) return } shardIdxes = mi.ShardIdexes[sg.ID] } } r.SkipMarshalShardKey() sh = sg.ShardFor(meta2.HashID(r.ShardKey), shardIdxes) } if sh == nil { err = errno.NewError(errno.WritePointMap2Shard) } return }" := by rfl
+
+theorem src_dropRowBranch_expected : src_dropRowBranch = "if isDropRow { ctx.aliveShardIdxes = ctx.aliveShardIdxes[:0] dropped++ continue }" := by rfl
+
+theorem src_sameMeasurement_expected : src_sameMeasurement = "{ if wh.preMst == nil { wh.sameMst = false return } wh.sameMst = wh.preMst.OriginName() == name }" := by rfl
+
+theorem src_whCreateMeasurement_expected : src_whCreateMeasurement = "{ if skipPreCheck { return createMeasurementBase(database, retentionPolicy, name, wh.pw.MetaClient, config.TSSTORE) } return createMeasurement(database, retentionPolicy, name, wh.pw.MetaClient, &wh.preMst, &wh.sameSchema, config.TSSTORE) }" := by rfl
+
+theorem src_createMeasurement_expected : src_createMeasurement = "{ if *preMst != nil && *sameSchema { if (*preMst).OriginName() == name { return *preMst, nil } } start := time.Now() defer func() { statistics.NewHandler().WriteCreateMstDuration.AddSinceNano(start) }() mst, err := createMeasurementBase(database, retentionPolicy, name, client, engineType) if err == nil { *preMst = mst *sameSchema = true } return mst, err }" := by rfl
+
+theorem src_createMeasurementBase_expected : src_createMeasurementBase = "{ start := time.Now() defer func() { statistics.NewHandler().WriteCreateMstDuration.AddSinceNano(start) }() mst, err := client.Measurement(database, retentionPolicy, name) if err == meta2.ErrMeasurementNotFound { ski := &meta2.ShardKeyInfo{ShardKey: nil, Type: influxql.HASH} mst, err = client.CreateMeasurement(database, retentionPolicy, name, ski, 0, nil, engineType, nil, nil, nil) } return mst, err }" := by rfl
+
+theorem src_whCreateShardGroup_expected : src_whCreateShardGroup = "{ var version uint32 if engineType == config.COLUMNSTORE { version = logstore.CurrentLogTokenizerVersion } return createShardGroup(database, retentionPolicy, wh.pw.MetaClient, &wh.preSg, ts, version, engineType) }" := by rfl
+
+theorem src_whReset_expected : src_whReset = "{ wh.preSg = nil wh.preMst = nil wh.sameSchema = false wh.sameSg = false wh.sameMst = false wh.mstPrimaryKeyRowMap = nil wh.pkLength = 0 }" := by rfl
+
 theorem maxConditionTagGroups_expected : maxConditionTagGroups = 1024 := by rfl
 
 theorem generation_ok : generationFailed = false := by rfl
